@@ -33,7 +33,7 @@ func (l *Lexer) NextToken() token.Token {
 	var tok token.Token
 
 	// l.skipWhitespace()
-	if l.ch == 0 {
+	if l.eof() {
 		tok.Literal = ""
 		tok.Type = token.EOF
 		tok.LineNumber = l.curLine
@@ -192,7 +192,7 @@ func (l *Lexer) nextInsideToken() token.Token {
 		tok.Type = token.B_STRING
 		tok.Literal = l.readBString()
 	case '#':
-		for l.ch != 0 {
+		for !l.eof() {
 			l.readChar()
 			if l.ch == '\n' || l.ch == '\r' {
 				break
@@ -204,6 +204,11 @@ func (l *Lexer) nextInsideToken() token.Token {
 	case ']':
 		tok = l.newToken(token.RBRACKET)
 	case 0:
+		if !l.eof() {
+			// a NUL byte of the input, not its end
+			tok = l.newToken(token.ILLEGAL)
+			break
+		}
 		tok.Literal = ""
 		tok.Type = token.EOF
 	default:
@@ -302,7 +307,7 @@ func (l *Lexer) readNumber() string {
 
 func (l *Lexer) readString() string {
 	position := l.position + 1
-	for l.ch != 0 {
+	for !l.eof() {
 		l.readChar()
 		// check for quote escapes
 		for l.ch == '\\' && l.peekChar() == '"' {
@@ -319,7 +324,7 @@ func (l *Lexer) readString() string {
 
 func (l *Lexer) readBString() string {
 	position := l.position + 1
-	for l.ch != 0 {
+	for !l.eof() {
 		l.readChar()
 		if l.ch == '`' {
 			break
@@ -329,10 +334,16 @@ func (l *Lexer) readBString() string {
 	return s
 }
 
+// eof reports whether the whole input was read; a NUL byte in the input is
+// an ordinary character.
+func (l *Lexer) eof() bool {
+	return l.position >= len(l.input)
+}
+
 func (l *Lexer) readHTML() string {
 	position := l.position
 
-	for l.ch != 0 {
+	for !l.eof() {
 		if l.ch == '\\' && l.prevChar() == '\\' && l.peekChar() == '<' && l.peekChar2() == '%' {
 			// escape escaping
 			l.readChar()
